@@ -48,6 +48,10 @@ type call struct {
 	offset time.Duration
 	client int
 	thread int // calls with the same thread number run one after the other on one harness thread
+	// fate: "" the controller answers after delay; "silent" it never answers (TCP: accepts and
+	// stalls); "refused" the TCP connection is refused; "reset" the TCP connection is reset after
+	// the request. A call with a fate must fail; the calls around it must be unaffected.
+	fate string
 }
 
 type result struct {
@@ -165,6 +169,26 @@ func callScenarioX(name string, bind uint16, calls []call, bound int, discovery 
 				return 0
 			}))
 		}
+		for i := range ctrls {
+			i := i
+			inner := f.Controllers[i].Respond
+			f.Controllers[i].Respond = func(proto string, req []byte, from string) []farm.Reply {
+				for _, c := range calls {
+					if c.ctrl == i && c.fate != "" && bytes.Equal(reqOf(c), req) {
+						if c.fate == "reset" {
+							return []farm.Reply{{Delay: c.delay, Reset: true}}
+						}
+						return nil
+					}
+				}
+				return inner(proto, req, from)
+			}
+			for _, c := range calls {
+				if c.ctrl == i && c.fate == "refused" {
+					f.Controllers[i].TCP = "refuse"
+				}
+			}
+		}
 		vs.Net().Env = f
 		clients := []uhppote.IUHPPOTE{}
 		for k := 0; k < nclients; k++ {
@@ -241,6 +265,13 @@ func callScenarioX(name string, bind uint16, calls []call, bound int, discovery 
 			}
 			if !r.done {
 				viols = append(viols, e1.Viol{Key: "call-never-returned/" + c.path + "/" + fixed, What: fmt.Sprintf("call %d (%s) did not return", i, c.op)})
+				continue
+			}
+			if c.fate != "" {
+				if r.obs.Err == nil {
+					viols = append(viols, e1.Viol{Key: "succeeded-without-reply/" + c.path + "/" + fixed, What: fmt.Sprintf("call %d (%s via %s, controller %s) returned %v", i, c.op, c.path, c.fate, r.obs.Fields)})
+				}
+				label += "x"
 				continue
 			}
 			if sent < 0 {
@@ -507,6 +538,43 @@ func main() {
 			}
 		}
 	}
+	// a failing call (silent controller, stalled / refused / reset TCP connection) next to calls that
+	// must be unaffected: concurrently on another thread, and afterwards on the same thread
+	for _, bind := range []uint16{0, 60001} {
+		for _, bad := range []struct{ path, fate string }{{"udp", "silent"}, {"broadcast", "silent"}, {"tcp", "silent"}, {"tcp", "refused"}, {"tcp", "reset"}} {
+			for _, p := range paths {
+				calls := []call{
+					{op: "GetCardByID", args: argsFor("GetCardByID", 2), ctrl: 2, path: bad.path, delay: T / 10, client: 0, fate: bad.fate, thread: 1},
+					{op: "GetEvent", args: argsFor("GetEvent", 2), ctrl: 0, path: p, delay: 4 * T / 10, client: 0, thread: 1},
+					{op: "GetCardByID", args: argsFor("GetCardByID", 1), ctrl: 1, path: p, delay: 4 * T / 10, offset: T / 10, client: 0, thread: 2},
+				}
+				b := 1
+				if r.Thorough() {
+					b = 2
+				}
+				scenarios = append(scenarios, callScenario(fmt.Sprintf("failing-call/bind=%d/%s-%s/others=%s", bind, bad.path, bad.fate, p), bind, calls, b, false))
+			}
+		}
+	}
+	// three staggered calls on one fixed bind port (the third arrives while the second, which had
+	// to wait for the first, is in flight)
+	for _, p := range paths {
+		for _, same := range []bool{true, false} {
+			calls := []call{}
+			for k, off := range []time.Duration{0, T / 10, 6 * T / 10} {
+				ctrl := k
+				if same {
+					ctrl = 0
+				}
+				calls = append(calls, call{op: "GetCardByID", args: argsFor("GetCardByID", k), ctrl: ctrl, path: p, delay: 4 * T / 10, offset: off, client: 0})
+			}
+			b := 1
+			if r.Thorough() {
+				b = 2
+			}
+			scenarios = append(scenarios, callScenario(fmt.Sprintf("3calls-staggered/bind=60001/%s/same=%v", p, same), 60001, calls, b, false))
+		}
+	}
 	// discovery while replies are still arriving, alongside a directed call
 	for _, bind := range []uint16{0, 60001} {
 		for _, p := range paths {
@@ -527,7 +595,7 @@ func main() {
 	if r.Worker == "" && r.Replay == "" {
 		racePass(r)
 	}
-	r.Rule("2 (thorough also 3) harness threads x {bind port 0, fixed} x {one shared client, two clients (also: same fixed port on the wildcard and on a specific local address)} x {same, different controller} x paths {udp,tcp,broadcast}^2 x reply delays {0,0.4T,0.8T}^2 x start offset {0,0.3T} x 3 operation pairs; every one of the 31 directed operations concurrently with itself and with PutCard (<= 1 preemption; quick: connected-UDP path only); discovery alongside a directed call; Listen with two events and the stop signal at 5 offsets; two threads x two sequential calls; for each scenario ALL interleavings with <= 2 preemptions (thorough: the two-call scenarios under ALL interleavings without bound, three-call families with <= 2 preemptions). distinct = distinct per-call outcome labels observed")
+	r.Rule("2 (thorough also 3) harness threads x {bind port 0, fixed} x {one shared client, two clients (also: same fixed port on the wildcard and on a specific local address)} x {same, different controller} x paths {udp,tcp,broadcast}^2 x reply delays {0,0.4T,0.8T}^2 x start offset {0,0.3T} x 3 operation pairs; every one of the 31 directed operations concurrently with itself and with PutCard (<= 1 preemption; quick: connected-UDP path only); a failing call (silent controller, stalled / refused / reset TCP) followed by and concurrent with calls that must succeed; three staggered calls on one fixed port; discovery alongside a directed call; Listen with two events and the stop signal at 5 offsets; two threads x two sequential calls; for each scenario ALL interleavings with <= 2 preemptions (thorough: the two-call scenarios under ALL interleavings without bound, three-call families with <= 2 preemptions). distinct = distinct per-call outcome labels observed")
 	r.Assume("sequentially consistent memory; scheduling points at mutex, channel, socket and sleep operations; unsynchronised accesses to locals shared with goroutine closures and to package-level variables of every package of the module (uhppote, types, messages, encoding/*) are caught by the vector-clock detector; struct fields and heap objects reached through pointers only by the free-running -race pass")
 	r.Assume("the simulated network orders consecutive operations on one socket (fd mutex atomics), as the real net package does")
 	r.Finish()
